@@ -17,8 +17,9 @@ def run(eng, tier):
     eng.ob(not interior, PROP, 'no-global-state', 'interior-mutable-static', 'interior-mutable statics: %s' % [s['def'] for s in interior])
     eng.ob(not [s for s in misc['fn_sigs'] if s['unsafe']], PROP, 'no-global-state', 'unsafe-fn', 'unsafe functions declared in the crate')
     variants = None
+    qty = ((eng.s['roots'].get('query', {}).get('sig') or {}).get('inputs') or [None])[-1]    # the request type of the `query` entry point
     for a in eng.s['adts']:
-        if a['def'].endswith('msg::QueryMsg'): variants = [v['name'] for v in a['variants']]
+        if a['def'] == qty: variants = [v['name'] for v in a['variants']]
     eng.ob(variants is not None, PROP, 'anchor', 'QueryMsg', 'QueryMsg not found')
     for v in (variants or []):
         eng.ob(v in TABLE, PROP, 'dispatch-classified', v, 'query kind %s has no entry in the spec table (new query?)' % v)
